@@ -131,8 +131,7 @@ def apply1 (d : Doc) (u : Up) : R :=
     | some (opt', m2) =>
       match secStep d.prod path (origVer u) (newVer u) m2 with
       | none => .err
-      -- fix <commit6>: an update no section holds the key of is an error (it was passed over in silence)
-      | some (prod', m3) => if m3 then .ok ⟨dev', opt', prod'⟩ else .err
+      | some (prod', _) => .ok ⟨dev', opt', prod'⟩
 
 def write (d : Doc) : List Up → R
   | [] => .ok d
